@@ -1107,6 +1107,7 @@ func runC02(e *Env) {
 	}
 	p := m.p
 	checkTargetConsts(e, p, load.Module, "E1.template", m.polFn, m.fragFn)
+	checkPolicyReadOnly(e, p, "E1.readonly")
 	name := "x86_64=true,short=true"
 	c := newWctx(e, m, name)
 	var swc *ssa.Function
